@@ -146,7 +146,8 @@ class Run:
                     continue
                 exprs.append(e)
                 idx.append(i)
-            vals = core.coq_eval('%s_%s_%s' % (mod.ID, tag, mode), mod.IMPORTS, exprs)
+            # an observation the oracle expression cannot even be typed with is outside the observation type: verdict false
+            vals = core.coq_eval('%s_%s_%s' % (mod.ID, tag, mode), mod.IMPORTS, exprs, tolerate=True)
             for i, v in zip(idx, vals):
                 out[i] = (v == ('app', 'true', []))
             res[mode] = out
